@@ -25,6 +25,7 @@ type rxCase struct {
 	Pat      string   `json:"pat"`
 	Alpha    []string `json:"alpha"`
 	Subjects []string `json:"subjects,omitempty"` // when given, Find results for them are returned (matcher validation)
+	Wit      []string `json:"wit,omitempty"`      // a shortest match (one string per symbol); it and its one-symbol variations are subjects too
 }
 
 type rxOut struct {
@@ -211,6 +212,21 @@ func judge(c *rxCase, r *rxOut, maxlen int) {
 		ml = maxlen - 1
 	}
 	subj := rxSubjects(c.Alpha, ml)
+	if len(c.Wit) > 0 {
+		w := strings.Join(c.Wit, "")
+		subj = append(subj, w)
+		for _, a := range c.Alpha {
+			subj = append(subj, w+a, a+w)
+			for i := range c.Wit {
+				v := append([]string{}, c.Wit...)
+				v[i] = a
+				subj = append(subj, strings.Join(v, ""))
+			}
+		}
+		for i := range c.Wit {
+			subj = append(subj, strings.Join(append(append([]string{}, c.Wit[:i]...), c.Wit[i+1:]...), ""))
+		}
+	}
 	for _, sg := range suggs {
 		if sg == "" {
 			continue
